@@ -81,7 +81,7 @@ type tokTest struct {
 	instr    ssa.Instruction
 }
 
-func (t tokTest) Pos() token.Pos      { return t.instr.Pos() }
+func (t tokTest) Pos() token.Pos         { return t.instr.Pos() }
 func (t tokTest) Block() *ssa.BasicBlock { return t.instr.Block() }
 
 // isCurrentTokenTyp: v is <current token>.Typ, the current token being p.token() or p.tokens[p.tkpos].
